@@ -147,6 +147,14 @@ func (t *c14Target) run(cfg *configuration.Configuration) c14Verdict {
 		if p != nil {
 			return c14Verdict{err: "escaped panic: " + short(ev.PanicString(p), 200), escaped: true}
 		}
+		if t.path == "cte" && cfg.Rules.MaxDocumentSizeBytes == c14DefaultDocSize {
+			// the CTE parser is two orders of magnitude slower than everything else here: its reader entry point is run
+			// where the two entry points differ in what they do (the document size limit), not for every other limit too
+			if err != nil {
+				return c14Verdict{err: short(err.Error(), 200)}
+			}
+			return c14Verdict{accepted: true}
+		}
 		p, _ = fw.Guard(func() {
 			rerr = dec.Decode(&c14SlowReader{data: t.doc, step: 1 + int(t.runs%7)*5}, rules.NewRules(nil, cfg))
 		})
@@ -185,6 +193,8 @@ func (t *c14Target) describe() map[string]interface{} {
 	}
 	return m
 }
+
+var c14DefaultDocSize = configuration.New().Rules.MaxDocumentSizeBytes
 
 var c14LargeValues = []uint64{1 << 31, 1<<32 + 1, 1 << 62, 1<<63 - 1, 1 << 63, math.MaxUint64}
 
@@ -479,7 +489,7 @@ func init() {
 		Level: "exploration",
 		Rule: "case = one document (directed documents first, then PRNG-generated rules-valid event streams with containers, nodes/edges, record types, markers/references, chunked and whole arrays, " +
 			"media, custom types, comments and padding, optionally wrapped in extra containers) presented three ways: as events to rules.NewRules, and encoded to CBE / CTE and given to " +
-			"ce.NewCBEDecoder/ce.NewCTEDecoder(cfg).DecodeDocument(doc, rules.NewRules(nil,cfg)) and .Decode(reader handing out 1..31 bytes per read, rules) — the two entry points must agree under every configuration; " +
+			"ce.NewCBEDecoder/ce.NewCTEDecoder(cfg).DecodeDocument(doc, rules.NewRules(nil,cfg)) and .Decode(reader handing out 1..31 bytes per read, rules) — the two entry points must agree under every configuration (for CTE, whose parser dominates the cost, the reader entry point is run whenever the document size limit is not the default); " +
 			"one CTE document in three gets trailing white space and top-level scalars are among the directed documents, so a document cut at the limit can still be well-formed. For each limit (MaxContainerDepth, MaxObjectCount, MaxArraySizeBytes, MaxIdentifierLength, " +
 			"MaxLocalReferenceCount as the marker limit, and MaxDocumentSizeBytes for the decoders) with all other limits at default, the smallest accepted value L* is found by exponential+binary search and " +
 			"L*-2..L*+2, the smallest legal value, random values on both sides, the default and 2^31..2^64-1 are run. Oracle: (i) rejected below L*, accepted from L* on; (ii) L* equals the usage computed by an " +
